@@ -246,6 +246,10 @@ def sim_summary(sim, res):
     if VIA_ENV[0] is not None:
         res.setdefault("extra", {})["workers_via_SLURM_NPROCS"] = 1
     res["digest"] = sim.digest()
+    # head-room of the hang detectors (a run that *returned* after using most of a budget is a warning sign)
+    if sim.status == "returned":
+        res["step_frac"] = max(res.get("step_frac", 0.0), sim.step / float(sim.step_cap))
+        res["idle_frac"] = max(res.get("idle_frac", 0.0), getattr(sim, "idle_frac", 0.0))
     res["steps"] = res.get("steps", 0) + sim.step
     res["vtime"] = res.get("vtime", 0.0) + sim.now
     res["leaked"] = res.get("leaked", 0) + sim.leaked
